@@ -223,14 +223,7 @@ def run_engine(case):
                 elif k == "Disp":
                     ops.Dgate(*_disp_args(op[2])) | ref(op[1], style)
                 elif k == "Swap":
-                    live_now = [r.ind for r in prog.register]
-                    if backend == "fock" and not case.get("raw_swap") and live_now and op[2] == min(live_now) and op[1] != op[2]:
-                        # same transformation written with the lowest mode as FIRST target (see ASSUMPTIONS)
-                        ops.BSgate(math.pi / 2, 0.0) | (ref(op[2], style), ref(op[1], style))
-                        ops.Rgate(math.pi) | ref(op[1], style)
-                        ops.Rgate(math.pi) | ref(op[2], style)
-                    else:
-                        ops.BSgate(math.pi / 2, 0.0) | (ref(op[1], style), ref(op[2], style))
+                    ops.BSgate(math.pi / 2, 0.0) | (ref(op[1], style), ref(op[2], style))
                 elif k == "Meas":
                     sel = tuple(ref(i, style) for i in op[1])
                     kind = op[2]
@@ -266,13 +259,7 @@ def run_api(case):
                 r, phi = _disp_args(op[2])
                 be.displacement(r, phi, op[1])
             elif k == "Swap":
-                live_now = [int(x) for x in be.get_modes()]
-                if backend == "fock" and not case.get("raw_swap") and live_now and op[2] == min(live_now) and op[1] != op[2]:
-                    be.beamsplitter(math.pi / 2, 0.0, op[2], op[1])
-                    be.rotation(math.pi, op[1])
-                    be.rotation(math.pi, op[2])
-                else:
-                    be.beamsplitter(math.pi / 2, 0.0, op[1], op[2])
+                be.beamsplitter(math.pi / 2, 0.0, op[1], op[2])
             elif k == "Meas":
                 if op[2] == "fock":
                     be.measure_fock(list(op[1]))
@@ -416,12 +403,20 @@ def gen_history(rng, backend, level, max_ops=None, malformed=0.15, churn=None, b
         case["styles"] = styles
     else:
         case["int_single"] = rng.random() < 0.5
-    if backend == "fock":
-        if rng.random() < 0.3:
-            case["pure"] = False
-        elif rng.random() < 0.15:
-            case["raw_swap"] = True
+    if backend == "fock" and rng.random() < 0.3:
+        case["pure"] = False
     return case
+
+
+def max_live(n, hist):
+    s = [0] * n
+    m = n
+    for op in hist:
+        t = spec_step(s, op)
+        if t is not None:
+            s = t
+            m = max(m, sum(1 for x in s if x is not None))
+    return m
 
 
 def nontrivial(case):
@@ -491,6 +486,10 @@ def predicate_failures(case, impl, spec):
         where = "%s:%s" % (be, level)
         rejected = so[0] == 9
         icode = io[0]
+        if rejected and icode != 0 and level == "api" and op[0] in ("Del", "Meas") and len(op[1]) > 1:
+            # a list whose first entries are valid: the phase-space backends work through the list and stop at the
+            # invalid entry (unreachable through a Program, which validates the whole list first) — not judged here
+            break
         if rejected and icode == 0:
             fails.append(("%s:accepted-invalid:%s" % (where, op[0]), "op #%d %s refers to a deleted/unknown/repeated mode but was accepted" % (pos, op)))
             break
@@ -602,11 +601,6 @@ def classify_modes(case, pos, io, so):
     return "%s:%s:get_modes" % (be, level)
 
 
-def gauss_slots_prediction(so_full_state):
-    """What GaussianBackend.state() hands back when it reads slots range(#live): data by slot index."""
-    return None
-
-
 def classify_state(case, pos, io, so):
     be, level = case["backend"], case["level"]
     if be == "bosonic" and level == "engine":
@@ -631,16 +625,6 @@ def classify_state(case, pos, io, so):
         if io[3] == pred and lives != list(range(len(lives))):
             return "gaussian:state-after-del:slots-range-nlive"
     labels_ok = isinstance(io[3], list) and [x[0] for x in io[3]] == [x[0] for x in so[3]]
-    if be == "fock" and labels_ok and case.get("raw_swap") and case.get("pure") is not False:
-        # known (belongs to C01/C05): pure-state two-mode gate whose SECOND target sits on tensor axis 0;
-        # narrow test: the identical history in the mixed-state representation satisfies the property
-        alt = copy.deepcopy(case)
-        alt["pure"] = False
-        try:
-            if not predicate_failures(alt, run_impl(alt), spec_trace(alt["n"], alt["ops"])):
-                return "fock:pure-state:twomode-gate-second-target-axis0"
-        except Exception:
-            pass
     return "%s:%s:state-%s" % (be, level, "data" if labels_ok else "labels")
 
 
@@ -810,6 +794,8 @@ def search(ctx):
             for length in (1, 2, 3):
                 for h in enumerate_histories(n, length, n + 1):
                     for be in ("gaussian", "fock"):
+                        if be == "fock" and max_live(n, h) > LIVE_CAP["fock"] + 1:
+                            continue
                         ops_ = [o if o[0] != "Meas" else ["Meas", o[1], "fock" if be == "fock" else "homodyne"] for o in h]
                         cases.append({"backend": be, "level": "engine", "n": n, "ops": ops_ + [["Seg", None]], "npseed": 1,
                                       "styles": ["ref"] * (len(ops_) + 1)})
